@@ -31,7 +31,7 @@ def _sub_loops(fi):
             and call_name(n.iter) in SUB_SOURCES]
 
 
-@rule("C03.R1", "C03", "TABLE", "first definer = index 0 of an MRO-ordered list", min_instances=10)
+@rule("C03.R1", "C03", "TABLE", "first definer = index 0 of an MRO-ordered list", min_instances=10, also=("C11",))
 def r1(ctx, R):
     """Constant subscripts on bases / bs / defined_bases / direct_bases / get_deriv_bases(...)
     are 0; the lists come from get_mro(...)[1:] without reordering; edges get increasing
@@ -248,7 +248,9 @@ def _known_atoms(fi, loop, table, R):
                     R.bad(fi, n.ast, "first definer is looked up among all bases, not among the *defined* ones: a derived copy "
                                      "in an intermediate space hides the defining base")
                     continue
-                raise AnalysisError("C03.R3: unrecognised predicate `%s` in %s" % (t, fi.short))
+                # a predicate outside the vocabulary is explored both ways (the case analysis stays an
+                # over-approximation of what can be reached); it is listed in the evidence
+                R.note("%s: predicate `%s` is not part of the case vocabulary: both outcomes are explored" % (fi.short, t))
 
 
 def _known(fi, loop, vocab, R):
